@@ -142,6 +142,49 @@ func loadWorldMin(repoDir string, minPkgs int) (*World, error) {
 	prog, _ := ssautil.AllPackages(pkgs, ssa.InstantiateGenerics)
 	prog.Build()
 	w.Prog = prog
+	// One view of the type information for all analysed packages: syntax nodes are unique, so
+	// the per-package maps can be united. Rules resolve names with "the" package's TypesInfo;
+	// with the union they can follow a new helper into another package of gleece.
+	{
+		merged := &types.Info{
+			Types: map[ast.Expr]types.TypeAndValue{}, Defs: map[*ast.Ident]types.Object{}, Uses: map[*ast.Ident]types.Object{},
+			Implicits: map[ast.Node]types.Object{}, Selections: map[*ast.SelectorExpr]*types.Selection{}, Scopes: map[ast.Node]*types.Scope{},
+			Instances: map[*ast.Ident]types.Instance{},
+		}
+		for _, p := range pkgs {
+			ti := p.TypesInfo
+			if ti == nil {
+				continue
+			}
+			for k, v := range ti.Types {
+				merged.Types[k] = v
+			}
+			for k, v := range ti.Defs {
+				merged.Defs[k] = v
+			}
+			for k, v := range ti.Uses {
+				merged.Uses[k] = v
+			}
+			for k, v := range ti.Implicits {
+				merged.Implicits[k] = v
+			}
+			for k, v := range ti.Selections {
+				merged.Selections[k] = v
+			}
+			for k, v := range ti.Scopes {
+				merged.Scopes[k] = v
+			}
+			for k, v := range ti.Instances {
+				merged.Instances[k] = v
+			}
+		}
+		for _, p := range pkgs {
+			if p.TypesInfo != nil {
+				p.TypesInfo.Types, p.TypesInfo.Defs, p.TypesInfo.Uses = merged.Types, merged.Defs, merged.Uses
+				p.TypesInfo.Implicits, p.TypesInfo.Selections, p.TypesInfo.Scopes, p.TypesInfo.Instances = merged.Implicits, merged.Selections, merged.Scopes, merged.Instances
+			}
+		}
+	}
 	for _, p := range pkgs {
 		sp := prog.Package(p.Types)
 		if sp == nil {
